@@ -11,12 +11,15 @@ need=0
 [ -x ../bin/model_driver ] || need=1
 [ -f ../ocaml/model.ml ] || need=1
 if [ $need = 0 ]; then
-  if [ -n "$(find . -name '*.vo' -newer ../ocaml/model.ml -not -path './Props/*' -not -path './Proofs/*' | head -1)" ] || [ ../ocaml/driver.ml -nt ../bin/model_driver ]; then need=1; fi
+  # (Extract.vo is written by the extraction run itself, a moment after model.ml: it is not a reason to extract again)
+  if [ -n "$(find . -name '*.vo' -newer ../ocaml/model.ml -not -path './Props/*' -not -path './Proofs/*' -not -name Extract.vo | head -1)" ] \
+     || [ Extract.v -nt ../ocaml/model.ml ] || [ ../ocaml/driver.ml -nt ../bin/model_driver ]; then need=1; fi
 fi
 if [ $need = 1 ]; then
   timeout 600 coqc -Q . AV Extract.v >/dev/null
   mv -f model.ml model.mli ../ocaml/
-  (cd ../ocaml && timeout 600 ocamlfind ocamlopt -w -a -O3 -unboxed-types model.mli model.ml driver.ml -o ../bin/model_driver 2>/dev/null \
-     || timeout 600 ocamlfind ocamlopt -w -a model.mli model.ml driver.ml -o ../bin/model_driver)
+  # link beside the target and rename: a check running at the same moment never sees a half-written driver
+  (cd ../ocaml && { timeout 600 ocamlfind ocamlopt -w -a -O3 -unboxed-types model.mli model.ml driver.ml -o ../bin/model_driver.new 2>/dev/null \
+     || timeout 600 ocamlfind ocamlopt -w -a model.mli model.ml driver.ml -o ../bin/model_driver.new; } && mv -f ../bin/model_driver.new ../bin/model_driver)
 fi
 exit 0
